@@ -31,14 +31,24 @@ static size_t fsize = 0; static int nsrc = 0; static std::map<int, std::string> 
 // the source file system, recording and optionally corrupting reads of the one file
 struct SrcFile : public ForwardFile_Ownership {
     SrcFile(IFile* f) : ForwardFile_Ownership(f, true) {}
-    ssize_t note(ssize_t r, off_t off, size_t len) {
+    // an injected short read must not leave the right bytes beyond the count it reports: the tail is poisoned
+    static void poison(const struct iovec* iov, int cnt, size_t from) {
+        size_t pos = 0;
+        for (int i = 0; i < cnt; ++i) { auto* b = (unsigned char*)iov[i].iov_base; size_t l = iov[i].iov_len;
+            for (size_t j = 0; j < l; ++j, ++pos) if (pos >= from) b[j] = 0xEE; }
+    }
+    ssize_t note(ssize_t r, off_t off, size_t len, const struct iovec* iov, int cnt) {
         int k = ++nsrc; auto it = srcfail.find(k);
-        if (it != srcfail.end()) { if (it->second == "fail") { r = -1; errno = EIO; } else if (r > 1) r = r / 2; }
-        emit("src %ld %zu %zd%s", (long)off, len, r, it != srcfail.end() ? " injected" : "");
+        // key 0 = "the first source read that reaches end-of-file"
+        if (it == srcfail.end() && r > 1 && (size_t)off + len >= fsize) { it = srcfail.find(0); if (it != srcfail.end() && it->second == "used") it = srcfail.end(); }
+        bool inj = it != srcfail.end();
+        if (inj) { if (it->second == "fail") { r = -1; errno = EIO; poison(iov, cnt, 0); } else if (r > 1) { r = r / 2; poison(iov, cnt, (size_t)r); }
+                   if (it->first == 0) it->second = "used"; }
+        emit("src %ld %zu %zd%s", (long)off, len, r, inj ? " injected" : "");
         return r; }
-    ssize_t pread(void* buf, size_t count, off_t offset) override { auto r = m_file->pread(buf, count, offset); return note(r, offset, count); }
-    ssize_t preadv(const struct iovec* iov, int cnt, off_t offset) override { size_t n = 0; for (int i = 0; i < cnt; ++i) n += iov[i].iov_len; auto r = m_file->preadv(iov, cnt, offset); return note(r, offset, n); }
-    ssize_t preadv2(const struct iovec* iov, int cnt, off_t offset, int flags) override { size_t n = 0; for (int i = 0; i < cnt; ++i) n += iov[i].iov_len; auto r = m_file->preadv2(iov, cnt, offset, flags); return note(r, offset, n); }
+    ssize_t pread(void* buf, size_t count, off_t offset) override { auto r = m_file->pread(buf, count, offset); struct iovec v{buf, count}; return note(r, offset, count, &v, 1); }
+    ssize_t preadv(const struct iovec* iov, int cnt, off_t offset) override { size_t n = 0; for (int i = 0; i < cnt; ++i) n += iov[i].iov_len; auto r = m_file->preadv(iov, cnt, offset); return note(r, offset, n, iov, cnt); }
+    ssize_t preadv2(const struct iovec* iov, int cnt, off_t offset, int flags) override { size_t n = 0; for (int i = 0; i < cnt; ++i) n += iov[i].iov_len; auto r = m_file->preadv2(iov, cnt, offset, flags); return note(r, offset, n, iov, cnt); }
 };
 struct SrcFS : public ForwardFS_Ownership {
     SrcFS(IFileSystem* fs) : ForwardFS_Ownership(fs, true) {}
